@@ -64,13 +64,13 @@ def stream_sbridge(ctx: Ctx):
     in_lists = [["3.6", "3.7"], ["2.7"], ["3.6", "3.10", "3.11"], ["3.9"], ["3"], ["3", "2.7"], ["3.8.1"], ["3.7", "3.8.2", "3"], ["3.8.0.1", "3.9"], ["3.6", "3.6"], ["3.10", "3.1"]]
     for _ in range(12):
         in_lists.append([".".join(str(rng.choice([0, 1, 2, 3, 7, 8, 10])) for _ in range(rng.choice([1, 2, 2, 2, 3, 4]))) for _ in range(rng.choice([1, 2, 3, 4]))])
-    for name in VN:
+    for name in list(VN) + ["implementation_version"]:      # the code treats implementation_version like platform_release (PRel)
         for op in ("in", "not in"):
             for items in in_lists:
                 for sep in (", ", ","):
                     m = MarkerExpression(name, op, sep.join(items))
                     its = "[" + "; ".join("[" + "; ".join(x for x in it.split(".")) + "]" for it in items) + "]"
-                    cases.append((f"BInView {VN[name]} {coqrun.cbool(op == 'not in')} {its} {sparse._res(lambda m=m: m.specifier, sparse.cspec_s)}", f"in-view: {m}"))
+                    cases.append((f"BInView {VN.get(name, 'PRel')} {coqrun.cbool(op == 'not in')} {its} {sparse._res(lambda m=m: m.specifier, sparse.cspec_s)}", f"in-view: {m}"))
     specs = []
     for op in OPS:
         for lit in ["3", "3.6", "3.7.1", "3.10", "3.9a1", "3.7.0rc1", "3.8.post1", "3.9.dev0", "3b2", "1!3"]:
